@@ -31,6 +31,7 @@ type vmTabGhost struct {
 	addr int // index into the pool (symbolic)
 	seq  uint64
 	udp  int
+	tcp  int // portal records normally carry none (0); arbitrary in {0, 30303}
 }
 
 var vmTabNodes = map[*enode.Node]*vmTabGhost{}
@@ -47,6 +48,7 @@ func vmTabIPAddr(n *enode.Node) netip.Addr {
 }
 func vmTabSeq(n *enode.Node) uint64     { return vmTabNodes[n].seq }
 func vmTabUDP(n *enode.Node) int        { return vmTabNodes[n].udp }
+func vmTabTCP(n *enode.Node) int        { return vmTabNodes[n].tcp }
 func vmAddrIsValid(ip netip.Addr) bool  { return true }
 func vmAddrIsUnspec(ip netip.Addr) bool { return false }
 func vmAddrIsLAN(ip netip.Addr) bool    { return vhLAN[vhAddrIndex(ip)] }
@@ -104,6 +106,7 @@ func vmFindFails(db *enode.DB, id enode.ID, ip netip.Addr) int { return vhFindFa
 //verif:model (*github.com/ethereum/go-ethereum/p2p/enode.Node).IPAddr = vmTabIPAddr
 //verif:model (*github.com/ethereum/go-ethereum/p2p/enode.Node).Seq = vmTabSeq
 //verif:model (*github.com/ethereum/go-ethereum/p2p/enode.Node).UDP = vmTabUDP
+//verif:model (*github.com/ethereum/go-ethereum/p2p/enode.Node).TCP = vmTabTCP
 //verif:exec net/netip.AddrFrom4 (net/netip.Addr).As4 (net/netip.Addr).v4 (net/netip.uint128).halves net/netip.ipv6Slash96 internal/byteorder
 //verif:model (net/netip.Addr).IsValid = vmAddrIsValid
 //verif:model (net/netip.Addr).IsUnspecified = vmAddrIsUnspec
@@ -150,7 +153,7 @@ func vhTabNodeIDAddr(id enode.ID, addr int) *enode.Node {
 	g := &vmNodeGhost{loadOutcome: 1, id: id}
 	vmNodes[n] = g
 	vmNodesList = append(vmNodesList, g)
-	vmTabNodes[n] = &vmTabGhost{addr: addr & 3, seq: vsU64("seq") & 3, udp: 30000 + int(vsU8("port")&1)}
+	vmTabNodes[n] = &vmTabGhost{addr: addr & 3, seq: vsU64("seq") & 3, udp: 30000 + int(vsU8("port")&1), tcp: 30303 * int(vsU8("tcp")&1)}
 	return n
 }
 
